@@ -58,6 +58,37 @@ Proof.
     + eapply K; eauto.
 Qed.
 
+(* the error's words: some call of a sample carrying the ID s at a variant carrying the ID v
+   satisfies f *)
+Definition named_offender (f : cell -> bool) (t : gtab) (s v : Z) : Prop :=
+  exists i j row vr x,
+    nth_error (g_samples t) i = Some s /\ nth_error (g_rows t) i = Some row
+    /\ nth_error (g_variants t) j = Some vr /\ vid vr = v
+    /\ nth_error row j = Some x /\ f x = true.
+
+Lemma named_in_row_true f v vs row :
+  named_in_row f v vs row = true ->
+  exists j vr x, nth_error vs j = Some vr /\ vid vr = v /\ nth_error row j = Some x /\ f x = true.
+Proof.
+  revert row. induction vs as [|y vs IH]; intros [|c row] H; cbn in H; try discriminate.
+  apply orb_true_iff in H. destruct H as [H|H].
+  - apply andb_true_iff in H. destruct H as [H1 H2]. apply Z.eqb_eq in H1.
+    exists 0%nat, y, c. cbn. repeat split; auto.
+  - destruct (IH row H) as [j [vr [x K]]]. exists (S j), vr, x. exact K.
+Qed.
+
+Lemma named_sat_true f t s v : named_sat f t s v = true -> named_offender f t s v.
+Proof.
+  unfold named_sat, named_offender. generalize (g_variants t) as vs.
+  generalize (g_rows t) as rows. generalize (g_samples t) as ss.
+  induction ss as [|s' ss IH]; intros [|r rows] vs H; cbn in H; try discriminate.
+  apply orb_true_iff in H. destruct H as [H|H].
+  - apply andb_true_iff in H. destruct H as [H1 H2]. apply Z.eqb_eq in H1. subst s'.
+    apply named_in_row_true in H2. destruct H2 as [j [vr [x [K1 [K2 [K3 K4]]]]]].
+    exists 0%nat, j, r, vr, x. cbn. repeat split; auto.
+  - destruct (IH rows vs H) as [i [j [row [vr [x K]]]]]. exists (S i), j, row, vr, x. exact K.
+Qed.
+
 (* ---- the clauses as propositions ------------------------------------------- *)
 
 (* t is p with some rows dropped according to keep; the other fields untouched *)
@@ -108,8 +139,9 @@ Theorem rows_discard_ok_sound must may p t :
     /\ forall i k row, nth_error keep i = Some k -> nth_error (g_rows p) i = Some row ->
          (existsb must row = true -> k = false) /\ (existsb may row = false -> k = true).
 Proof.
-  unfold rows_discard_ok. intro H. apply andb_true_iff in H. destruct H as [H1 H2].
-  eexists. split; [apply same_but_rows_true; exact H1|].
+  unfold rows_discard_ok. intro H. destruct (rows_keep must may p t) as [keep|]; [|discriminate].
+  apply andb_true_iff in H. destruct H as [H1 H2].
+  exists keep. split; [apply same_but_rows_true; exact H1|].
   apply forallb2_nth in H2. destruct H2 as [L K]. split; [exact L|].
   intros i k row Hk Hr. specialize (K i k row Hk Hr). apply andb_true_iff in K. destruct K as [K1 K2].
   split; intro E; rewrite E in *; cbn in *.
@@ -125,8 +157,9 @@ Theorem cols_discard_ok_sound must may p t :
     /\ forall j k, nth_error keep j = Some k -> (j < length (g_variants p))%nat ->
          (must j = true -> k = false) /\ (may j = false -> k = true).
 Proof.
-  unfold cols_discard_ok. intro H. apply andb_true_iff in H. destruct H as [H1 H2].
-  eexists. split; [apply same_but_cols_true; exact H1|].
+  unfold cols_discard_ok. intro H. destruct (cols_keep must may p t) as [keep|]; [|discriminate].
+  apply andb_true_iff in H. destruct H as [H1 H2].
+  exists keep. split; [apply same_but_cols_true; exact H1|].
   apply forallb2_nth in H2. destruct H2 as [L K]. rewrite seq_length in L. split; [exact L|].
   intros j k Hk Hj.
   assert (Hs : nth_error (seq 0 (length (g_variants p))) j = Some j).
@@ -145,7 +178,7 @@ Theorem holds_missing_sound anc p o :
   match o with
   | ORet t _ => ~ some_cell (miss_must anc) p /\ t = p
   | ORaise s v t =>
-      t = p /\ exists s' v' x, s = Some s' /\ v = Some v' /\ named_cell p s' v' = Some x /\ miss_may x = true
+      t = p /\ exists s' v', s = Some s' /\ v = Some v' /\ named_offender miss_may p s' v'
   | OOther k => False
   end.
 Proof.
@@ -155,8 +188,7 @@ Proof.
   - cbn in H. destruct s as [s'|]; [|discriminate]. destruct v as [v'|]; [|discriminate].
     apply andb_true_iff in H. destruct H as [H1 H2].
     split; [apply gtab_eqb_true; exact H1|].
-    destruct (named_cell p s' v') as [x|] eqn:E; [|discriminate].
-    exists s', v', x. auto.
+    exists s', v'. split; [reflexivity|]. split; [reflexivity|]. apply named_sat_true. exact H2.
   - discriminate.
 Qed.
 
@@ -195,7 +227,7 @@ Theorem holds_phase_sound p o :
       \/ (3 <= g_planes p /\ ~ some_cell unph_must p /\ t = strip_phase p)
   | ORaise s v t =>
       3 <= g_planes p /\ t = p
-      /\ exists s' v' x, s = Some s' /\ v = Some v' /\ named_cell p s' v' = Some x /\ unph_may x = true
+      /\ exists s' v', s = Some s' /\ v = Some v' /\ named_offender unph_may p s' v'
   | OOther k => False
   end.
 Proof.
@@ -207,8 +239,7 @@ Proof.
   - cbn in H. destruct s as [s'|]; [|discriminate]. destruct v as [v'|]; [|discriminate].
     apply andb_true_iff in H. destruct H as [H1 H3]. apply andb_true_iff in H1. destruct H1 as [H1 H2].
     split; [apply Z.leb_le; exact H1|]. split; [apply gtab_eqb_true; exact H2|].
-    destruct (named_cell p s' v') as [x|] eqn:E; [|discriminate].
-    exists s', v', x. auto.
+    exists s', v'. split; [reflexivity|]. split; [reflexivity|]. apply named_sat_true. exact H3.
   - discriminate.
 Qed.
 
@@ -218,7 +249,6 @@ Theorem holds_step_dispatch anc p op o :
   match o with
   | OOther k => k = E_Unobserved
   | _ =>
-      ids_distinct p = true ->
       match op with
       | OpMissing d => holds_missing anc p d o = true
       | OpBiallelic d => holds_biallelic p d o = true
@@ -229,8 +259,8 @@ Theorem holds_step_dispatch anc p op o :
   end.
 Proof.
   unfold holds_step. destruct o as [t mf|s v t|k]; intro H.
-  - intro D. rewrite D in H. cbn [negb orb] in H. destruct op; exact H.
-  - intro D. rewrite D in H. cbn [negb orb] in H. destruct op; exact H.
+  - destruct op; exact H.
+  - destruct op; exact H.
   - apply Z.eqb_eq. exact H.
 Qed.
 
@@ -242,8 +272,8 @@ Theorem holds_load_sound k :
       ~ some_cell (miss_must (l_anc k)) (l_raw k) /\ ~ some_cell multi_must (l_raw k)
       /\ ~ some_cell unph_must (l_raw k) /\ t = strip_phase (cast_bool (l_raw k))
   | ORaise s v _ =>
-      exists s' v' x, s = Some s' /\ v = Some v' /\ named_cell (l_raw k) s' v' = Some x
-                      /\ (miss_may x = true \/ multi_may x = true \/ unph_may x = true)
+      exists s' v', s = Some s' /\ v = Some v'
+        /\ named_offender (fun x => miss_may x || multi_may x || unph_may x) (l_raw k) s' v'
   | OOther e => e = E_Unobserved
   end.
 Proof.
@@ -251,8 +281,7 @@ Proof.
   - rewrite !andb_true_iff in H. destruct H as [[[H1 H2] H3] H4].
     rewrite !no_cell_iff in *. rewrite gtab_eqb_true in H4. auto.
   - destruct s as [s'|]; [|discriminate]. destruct v as [v'|]; [|discriminate].
-    destruct (named_cell (l_raw k) s' v') as [x|] eqn:E; [|discriminate].
-    exists s', v', x. rewrite !orb_true_iff in H. tauto.
+    exists s', v'. split; [reflexivity|]. split; [reflexivity|]. apply named_sat_true. exact H.
   - apply Z.eqb_eq. exact H.
 Qed.
 
